@@ -26,6 +26,9 @@
 #![cfg_attr(test, allow(clippy::needless_pass_by_value))]
 
 // Backward compatibility
+#[cfg(datafusion_verif)]
+datafusion_common::verif_sync_shims!();
+
 pub mod aggregate;
 pub mod analysis;
 pub mod binary_map {
